@@ -579,7 +579,40 @@ def r05_10(ctx) -> None:
     ctx.count("R05.10", n, 9, "registry constructions in operation-reachable functions")
 
 
+def r05_12(ctx) -> None:
+    """sibling cross-check: all JWS entry points decide in the same way when the caller's registry is replaced by one built from
+    `algorithms` (construct_registry): the controlling condition of every such call site is the same"""
+    eng = ctx.eng
+    cr = eng.prog.func("rfc7515.registry:construct_registry")
+    sites = [s for s in eng.cg.callers.get(cr, []) if isinstance(s.node, ast.Call)]
+    conds = {}
+    for s in sites:
+        cfg = cfg_of(s.fn)
+        sn = cfg.node_of(s.node)
+        ctl = []
+        for t in cfg.nodes:
+            if t.kind != "test" or t.ast is None or sn is None:
+                continue
+            r_true = sn in cfg.reachable(cfg.entry, edge_filter=lambda a, b, lab, _t=t: not (a is _t and lab == "false"))
+            r_false = sn in cfg.reachable(cfg.entry, edge_filter=lambda a, b, lab, _t=t: not (a is _t and lab == "true"))
+            if r_true != r_false:
+                ctl.append((norm(t.ast), "true" if r_true else "false"))
+            elif any(isinstance(x, ast.Name) and x.id in ("registry", "algorithms") for x in ast.walk(t.ast)) and sn in cfg.reachable(t):
+                ctl.append((norm(t.ast), "either"))
+        conds[s] = tuple(sorted(ctl))
+    ctx.count("R05.12", len(sites), 4, "construct_registry call sites")
+    from collections import Counter
+    maj, _ = Counter(conds.values()).most_common(1)[0]
+    ctx.check(maj == (("registry is None", "true"),), "R05.12", cr, cr.node, "construct_registry :: majority condition", f"the JWS entry points build a registry under {maj}",
+              "if registry is None", construct="construct_registry majority condition")
+    for s, c in conds.items():
+        ctx.check(c == maj, "R05.12", s.fn, s.node, f"{s.fn.short} :: construct_registry condition", f"{s.fn.short} replaces the caller's registry under {c}, its siblings under {maj}: "
+                  "a given registry (its header table, strictness, allow-list) is dropped when `algorithms` is also passed", "same condition as the sibling entry points",
+                  construct=f"construct_registry condition in {s.fn.short}")
+
+
 def run(ctx) -> None:
+    ctx.guard(r05_12)
     ctx.guard(r05_10)
     ctx.guard(r05_1)
     verified = ctx.guard(r05_3) or []
@@ -590,6 +623,8 @@ def run(ctx) -> None:
     ctx.guard(r05_6)
     ctx.guard(r05_7)
     ctx.guard(r05_9, verified)
+    from .c15 import r15_3
+    ctx.guard_as("R05.11", r15_3)  # alg / enc / zip header values are only type-checked by the header tables: which names are usable is the gate's decision
     # every zip value that is present is looked up (and refused when unknown): the compression condition is presence, not truthiness
     from .c04 import r04_2
     ctx.guard_as("R05.8", r04_2)
